@@ -39,7 +39,8 @@ def h_partition(ctx):
     try:
         idx = vu.partition_by_sum(sizes, parts)
     except ValueError:
-        ctx.claim("refusing to partition is always allowed", True)
+        # refusing is allowed, but not when the perfect partition is obvious: equal populations, parts dividing their number
+        ctx.claim("equal populations with parts dividing their number are partitioned, not refused", Not(And([eq(sizes[0], v) for v in sizes[1:]])) if n % parts == 0 else True)
         return
     idx = [int(i) for i in idx]
     ctx.claim("parts-1 split points", len(idx) == parts - 1)
@@ -72,15 +73,40 @@ class _Labels:
     def __init__(self, labels):
         self.labels = labels
         self.calls = 0
+        self.seen = []
 
     def __call__(self, coordinates, spacing=None, adjust="spacing", region=None, shape=None):
         self.calls += 1
+        self.seen.append({"coordinates": coordinates, "spacing": spacing, "shape": shape, "region": region, "adjust": adjust})
         return None, np.array(self.labels, dtype=int)
 
 
 def _labels(ctx, n, nblocks):
     ls = [ctx.integer("L_%d" % i, 0, nblocks - 1) for i in range(n)]
     return [int(l) for l in ls]
+
+
+def _points(n):
+    "distinct concrete locations for the feature matrix (their block labels are planted, so only their identity matters)"
+    return np.array([[0.5 + 1.25 * i, 20.0 - 2.5 * i] for i in range(n)])
+
+
+def _geom(cfg):
+    g = cfg.get("geom") or {"shape": (2, 2)}
+    return {k: tuple(v) if isinstance(v, (list, tuple)) else v for k, v in g.items()}
+
+
+def _forwarding_claim(ctx, stub, X, geom):
+    "every block_split call got (easting, northing) = the two columns of X, and the splitter's own shape/spacing"
+    ok = len(stub.seen) > 0
+    for c in stub.seen:
+        co = c["coordinates"]
+        ok = ok and len(co) == 2 and np.array_equal(np.asarray(co[0], dtype=float), X[:, 0]) and np.array_equal(np.asarray(co[1], dtype=float), X[:, 1])
+        for key in ("shape", "spacing"):
+            want = geom.get(key)
+            got = c[key]
+            ok = ok and ((got is None) if want is None else (got is not None and tuple(np.atleast_1d(got)) == tuple(np.atleast_1d(want))))
+    ctx.claim("blocks are built from the feature matrix columns (easting, northing) with the splitter's own shape/spacing", bool(ok))
 
 
 def _with_block_split(labels, fn):
@@ -113,10 +139,15 @@ def _common_split_claims(ctx, splits, labels, n):
 def h_blockkfold(ctx):
     cfg = ctx.cfg
     n, nblocks, n_splits = cfg["n"], cfg["blocks"], cfg["n_splits"]
-    labels = _labels(ctx, n, nblocks)
+    labels = list(cfg["fixed_labels"]) if cfg.get("fixed_labels") else _labels(ctx, n, nblocks)
     occupied = sorted(set(labels))
-    X = np.zeros((n, 2))
-    kw = dict(shape=(2, 2), n_splits=n_splits, shuffle=cfg["shuffle"], balance=cfg["balance"], random_state=cfg.get("seed"))
+    X = _points(n)
+    geom = _geom(cfg)
+    if cfg.get("defaults"):
+        # documented defaults: n_splits=5, shuffle=False, balance=True (the expectations below use cfg's values)
+        kw = dict(geom)
+    else:
+        kw = dict(geom, n_splits=n_splits, shuffle=cfg["shuffle"], balance=cfg["balance"], random_state=cfg.get("seed"))
 
     def run():
         with warnings.catch_warnings(record=True) as rec:
@@ -125,11 +156,12 @@ def h_blockkfold(ctx):
         return out, [w for w in rec if issubclass(w.category, UserWarning) and "balance" in str(w.message)]
 
     try:
-        (splits, warned), _ = _with_block_split(labels, run)
+        (splits, warned), stub = _with_block_split(labels, run)
     except ValueError:
         ctx.claim("rejected only when n_splits exceeds the number of occupied blocks", n_splits > len(occupied))
         return
     ctx.claim("accepted only when n_splits <= occupied blocks", n_splits <= len(occupied))
+    _forwarding_claim(ctx, stub, X, geom)
     ctx.claim("exactly n_splits folds", len(splits) == n_splits)
     _common_split_claims(ctx, splits, labels, n)
     tests = [list(t) for _, t in splits]
@@ -190,11 +222,16 @@ def h_blockkfold(ctx):
 def h_blockshuffle(ctx):
     cfg = ctx.cfg
     n, nblocks = cfg["n"], cfg["blocks"]
-    labels = _labels(ctx, n, nblocks)
+    labels = list(cfg["fixed_labels"]) if cfg.get("fixed_labels") else _labels(ctx, n, nblocks)
     occupied = sorted(set(labels))
     ctx.assume(len(occupied) >= 2)
-    X = np.zeros((n, 2))
-    kw = dict(shape=(2, 2), n_splits=cfg["n_splits"], test_size=cfg["test_size"], train_size=cfg.get("train_size"), random_state=cfg["seed"], balancing=cfg["balancing"])
+    X = _points(n)
+    geom = _geom(cfg)
+    if cfg.get("defaults"):
+        # documented defaults: n_splits=10, test_size=0.1, train_size=None, balancing=10
+        kw = dict(geom, random_state=cfg["seed"])
+    else:
+        kw = dict(geom, n_splits=cfg["n_splits"], test_size=cfg["test_size"], train_size=cfg.get("train_size"), random_state=cfg["seed"], balancing=cfg["balancing"])
 
     def run():
         return list(vd.BlockShuffleSplit(**kw).split(X))
@@ -211,11 +248,12 @@ def h_blockshuffle(ctx):
     if n_train is None:
         n_train = nb - n_test
     try:
-        splits, _ = _with_block_split(labels, run)
+        splits, stub = _with_block_split(labels, run)
     except ValueError:
         ctx.claim("rejected only when the prescribed block counts are impossible", n_test >= nb or n_test <= 0 or n_train <= 0 or n_train + n_test > nb)
         return
     ctx.claim("n_splits splits", len(splits) == cfg["n_splits"])
+    _forwarding_claim(ctx, stub, X, geom)
     _common_split_claims(ctx, splits, labels, n)
     labs = np.asarray(labels)
     for train, test in splits:
@@ -265,6 +303,9 @@ def _cfg_kfold(tier, seed):
         out.append({"n": 5, "blocks": 3, "n_splits": 2, "shuffle": False, "balance": True, "seed": None})
         out.append({"n": 5, "blocks": 3, "n_splits": 2, "shuffle": True, "balance": True, "seed": 8})
         out.append({"n": 5, "blocks": 3, "n_splits": 2, "shuffle": True, "balance": True, "seed": 1})
+        out.append({"n": 4, "blocks": 3, "n_splits": 2, "shuffle": False, "balance": False, "seed": None, "geom": {"shape": (2, 3)}})
+        out.append({"n": 4, "blocks": 3, "n_splits": 3, "shuffle": True, "balance": True, "seed": 4, "geom": {"spacing": (1.5, 2.5)}})
+        out.append({"n": 7, "blocks": 6, "n_splits": 5, "shuffle": False, "balance": True, "seed": None, "defaults": True, "fixed_labels": [0, 1, 2, 3, 4, 5, 5], "geom": {"shape": (3, 2)}})
     else:
         for n, blocks in ((5, 4), (6, 3), (6, 4)):
             for n_splits in range(2, blocks + 1):
@@ -281,6 +322,8 @@ def _cfg_shuffle(tier, seed):
             {"n": 4, "blocks": 4, "n_splits": 1, "test_size": 0.5, "seed": 5, "balancing": 1},
             {"n": 4, "blocks": 4, "n_splits": 2, "test_size": None, "train_size": 0.5, "seed": 2, "balancing": 2},
             {"n": 4, "blocks": 4, "n_splits": 1, "test_size": None, "train_size": 1, "seed": 4, "balancing": 1},
+            {"n": 4, "blocks": 3, "n_splits": 1, "test_size": 1, "train_size": 2, "seed": 6, "balancing": 2, "geom": {"spacing": (1.5, 2.5)}},
+            {"n": 5, "blocks": 4, "n_splits": 10, "test_size": 0.1, "seed": 7, "balancing": 10, "defaults": True, "fixed_labels": [0, 1, 2, 3, 3], "geom": {"shape": (2, 3)}},
         ]
     out = []
     for n, blocks in ((5, 4), (6, 4), (6, 3)):
@@ -308,7 +351,7 @@ HARNESSES = [
         "blockkfold",
         h_blockkfold,
         _cfg_kfold,
-        bounds="n <= 5 (quick) / 6 (thorough) samples with symbolic block labels in [0, B), B <= 3 / 4 (every labelling forked by the solver); n_splits 2..B; shuffle/balance on/off",
+        bounds="n <= 5 (quick) / 6 (thorough) samples with symbolic block labels in [0, B), B <= 3 / 4 (every labelling forked by the solver); n_splits 2..B; shuffle/balance on/off; shape (2,2)/(2,3)/(3,2) or spacing; one all-defaults splitter on 7 samples in 6 fixed blocks",
         stubs=["verde.model_selection.block_split -> labels planted by the harness (C08 contract)"],
         outside="n > 6, B > 4; that labels come from real coordinates is C08's claim",
         timeout_s=900,
@@ -317,7 +360,7 @@ HARNESSES = [
         "blockshufflesplit",
         h_blockshuffle,
         _cfg_shuffle,
-        bounds="n <= 4 / 6 samples, B <= 4 blocks, every labelling with >= 2 occupied blocks; test sizes 0.1..0.75 and an absolute count; balancing 1..3; seeds from VERIF_SEED",
+        bounds="n <= 4 / 6 samples, B <= 4 blocks, every labelling with >= 2 occupied blocks; test sizes 0.1..0.75 and an absolute count; balancing 1..3; seeds from VERIF_SEED; shape or spacing; one all-defaults splitter on fixed labels",
         stubs=["verde.model_selection.block_split -> labels planted by the harness (C08 contract)"],
         timeout_s=900,
     ),
